@@ -2,8 +2,8 @@ package scen
 
 import (
 	"fmt"
-	"strings"
 	"net"
+	"strings"
 	"sync/atomic"
 
 	"github.com/tjfoc/gmsm/gmtls"
